@@ -86,8 +86,12 @@ def SC_cat(prefix, data):
 class Dispatcher(object):
     def __init__(self):
         self.sent = []
+        self.fail_next = None
 
     def sendData(self, d):
+        if self.fail_next is not None:
+            e, self.fail_next = self.fail_next, None
+            raise e
         self.sent.append(d)
 
     def connect(self, ep):
@@ -176,7 +180,7 @@ def _seg(frame):
     return bytes([(n >> 16) & 255, (n >> 8) & 255, n & 255]) + frame
 
 
-DOWN_FAULTS = ("unencodable-value", "oversize-frame", "no-transport-session")
+DOWN_FAULTS = ("unencodable-value", "oversize-frame", "no-transport-session", "socket-write-fails", "interrupted-during-socket-write")
 UP_FAULTS = ("undecryptable-frame", "undecodable-frame", "rejected-stanza", "application-callback-raises")
 
 
@@ -210,6 +214,18 @@ def _inject_fault(ctx, kind, st, insts, disp, net, noise, top):
                 top.toLower(_good_entity())
             finally:
                 noise._wa_noiseprotocol.ready = True
+        elif kind == "socket-write-fails":
+            disp.fail_next = OSError(32, "Broken pipe")
+            top.toLower(_good_entity())
+        elif kind == "interrupted-during-socket-write":
+            # the sending thread is interrupted (Ctrl-C in an interactive client, SystemExit of a worker) inside the network write
+            disp.fail_next = KeyboardInterrupt()
+            try:
+                top.toLower(_good_entity())
+            except KeyboardInterrupt as e:
+                return e
+            finally:
+                disp.fail_next = None
         elif kind == "undecryptable-frame":
             net.receive(_seg(b"CORRUPT ciphertext whose tag does not verify"))
         elif kind == "undecodable-frame":
@@ -224,6 +240,43 @@ def _inject_fault(ctx, kind, st, insts, disp, net, noise, top):
     except Exception as e:
         return e
     return None
+
+
+def _wire_is_whole_frames(ctx, chunks):
+    """what the peer sees: the bytes handed to the socket so far parse as 3-byte length + payload, repeatedly, with nothing left over"""
+    from sx.vals import SymSeq
+    if not any(isinstance(c, SymSeq) for c in chunks):
+        data = b"".join(bytes(c) for c in chunks)
+        i = 0
+        while i < len(data):
+            if i + 3 > len(data):
+                return False
+            n = int.from_bytes(data[i:i + 3], "big")
+            if i + 3 + n > len(data):
+                return False
+            i += 3 + n
+        return True
+    rope = SymSeq([], "bytes")
+    for c in chunks:
+        rope = rope + (c if isinstance(c, SymSeq) else bytes(c))
+    for _ in range(len(chunks) + 1):
+        n = rope.length()
+        if isinstance(n, int):
+            if n == 0:
+                return True
+            if n < 3:
+                return False
+        else:
+            if bool(n == 0):
+                return True
+            if bool(n < 3):
+                return False
+        L = (rope[0] << 16) | (rope[1] << 8) | rope[2]
+        rest = n - 3
+        if bool(L > rest):
+            return False
+        rope = rope[3 + L:]
+    return bool(rope.length() == 0)
 
 
 def h_fault(ctx, kind, n_ops):
@@ -253,11 +306,14 @@ def h_fault(ctx, kind, n_ops):
             obs.append(("follow-up-incoming-frame-completes", _do_recv_ok(net, top)))
     except WouldBlock as e:
         obs.append(("follow-up-blocks-forever (%s)" % e, False))
+    obs.append(("the socket stream is still a sequence of whole frames (a refused frame left nothing behind)", _wire_is_whole_frames(ctx, disp.sent)))
     return obs
 
 
 def finding_key(case, label, values, where):
     kind = case[case.index("[") + 1:case.index(",")] if "," in case else case
+    if "lock" not in label and "block" not in label:
+        return None
     if kind in DOWN_FAULTS:
         return "C12|YowLayer.toLower keeps its lock when the layer below raises"
     if kind in UP_FAULTS:
